@@ -414,3 +414,70 @@ Proof.
 Qed.
 
 End Slice.
+
+(* ---- peak size: the running total of peak_size(order) telescopes -- after ANY
+        enumeration of the contractions only the result is alive ---- *)
+Section Peak.
+Variable n : net.
+Variable sl : list slinfo.
+
+Definition delta (bt : bool * tree) : Z :=
+  match snd bt with
+  | Leaf _ => 0%Z
+  | Node l r => (node_size n sl (fst bt) (snd bt) - child_size n sl l - child_size n sl r)%Z
+  end.
+
+Lemma peak_step_fst st bt : fst (peak_step n sl st bt) = (fst st + delta bt)%Z.
+Proof. destruct st as [tot pk], bt as [b [k|l r]]; cbn; lia. Qed.
+
+Lemma peak_step_snd_ge st bt : (snd st <= snd (peak_step n sl st bt))%Z.
+Proof. destruct st as [tot pk], bt as [b [k|l r]]; cbn; lia. Qed.
+
+Lemma fold_peak_fst order : forall st,
+  fst (fold_left (peak_step n sl) order st) = (fst st + zsum (map delta order))%Z.
+Proof.
+  induction order as [|bt order IH]; intros st; cbn [fold_left map].
+  - unfold zsum. cbn. lia.
+  - rewrite IH, peak_step_fst, zsum_cons. lia.
+Qed.
+
+Lemma fold_peak_snd_ge order : forall st, (snd st <= snd (fold_left (peak_step n sl) order st))%Z.
+Proof.
+  induction order as [|bt order IH]; intros st; cbn [fold_left]; [lia|].
+  pose proof (peak_step_snd_ge st bt). specialize (IH (peak_step n sl st bt)). lia.
+Qed.
+
+Lemma zsum_perm l1 l2 : Permutation l1 l2 -> zsum l1 = zsum l2.
+Proof. induction 1; rewrite ?zsum_cons in *; lia. Qed.
+
+Lemma leaves_total_node l r : leaves_total n sl (Node l r) = (leaves_total n sl l + leaves_total n sl r)%Z.
+Proof. unfold leaves_total. cbn [leaves]. rewrite map_app, zsum_app. reflexivity. Qed.
+
+Lemma sub_total t :
+  (leaves_total n sl t + zsum (map delta (map (pair false) (post_sub t))))%Z = node_size n sl false t.
+Proof.
+  induction t as [k|l IHl r IHr].
+  - cbn [post_sub map]. unfold leaves_total. cbn [leaves map]. rewrite zsum_cons. unfold zsum. cbn. lia.
+  - cbn [post_sub]. rewrite leaves_total_node, !map_app, !zsum_app. cbn [map].
+    rewrite zsum_cons. change (zsum []) with 0%Z.
+    unfold delta at 3. cbn [snd fst]. unfold child_size. lia.
+Qed.
+
+(* final running total = size of the result, for every enumeration of the contractions *)
+Theorem peak_final_total l r order : Permutation order (traverse_dfs (Node l r)) ->
+  fst (fold_left (peak_step n sl) order (leaves_total n sl (Node l r), leaves_total n sl (Node l r)))
+  = node_size n sl true (Node l r).
+Proof.
+  intros HP. rewrite fold_peak_fst. cbn [fst].
+  rewrite (zsum_perm _ _ (Permutation_map delta HP)).
+  cbn [traverse_dfs]. rewrite map_app, zsum_app. cbn [map]. rewrite zsum_cons. change (zsum []) with 0%Z.
+  rewrite leaves_total_node, !map_app, zsum_app.
+  pose proof (sub_total l) as Hl. pose proof (sub_total r) as Hr.
+  unfold delta at 3. cbn [snd fst]. unfold child_size. lia.
+Qed.
+
+(* the reported peak is at least the memory held at the start and at the end *)
+Theorem peak_ge_inputs t order : (leaves_total n sl t <= peak_size_order n sl t order)%Z.
+Proof. unfold peak_size_order. apply (fold_peak_snd_ge order (leaves_total n sl t, leaves_total n sl t)). Qed.
+
+End Peak.
